@@ -1,7 +1,7 @@
 //! Registry: which scenarios decide which property.
 
 use crate::cli;
-use crate::search::{Check, Scen};
+use crate::search::{Check, Scen, Sweep};
 
 const CLI_REAL: &str = "jsonrpsee-core async client (Client, send/read/shutdown tasks, RequestManager, RpcService, request timers), jsonrpsee-types, tokio sync primitives and timers (paused clock)";
 const CLI_STUB: &str = "transport (in-memory SimTransport implementing TransportSenderT/TransportReceiverT), remote server (scripted peer), futures_timer (tokio-clock drop-in, hook H3), OS scheduling (task gate, hook H2)";
@@ -18,6 +18,54 @@ pub fn all() -> Vec<Check> {
 		stuck_is_violation: false,
 		assumptions: vec!["a poll of a task is atomic (interleavings inside one poll are not explored)", "the scripted peer stands in for any server"],
 		real: CLI_REAL,
+		stub: CLI_STUB,
+	},
+	Check {
+		prop: "C05",
+		level: "exploration",
+		scens: vec![Scen { name: "cli_subs", f: || Box::pin(cli::subs::scenario()), weight: 1, sweep: None, max_steps: 80_000 }],
+		quick_runs: 6_000,
+		thorough_runs: 1_000_000,
+		rule: "1-4 subscriptions (+ optional method-notification handler), buffers 1/2/3/8, consumers eager/slow/stalled, explicit unsubscribe or drop at drawn points, 3-40 pushes (live/ended/unknown ids, close notifications, method notifications) delivered singly or grouped in arrays, before and after the subscribe responses; non-trivial = some stream yielded >= 2 items or was closed for lagging; distinct = schedule fingerprint",
+		lib_panic_is_violation: false,
+		stuck_is_violation: false,
+		assumptions: vec!["a poll of a task is atomic (the buffer-occupancy model relies on it)", "the peer never reuses a subscription id"],
+		real: CLI_REAL,
+		stub: CLI_STUB,
+	},
+	Check {
+		prop: "C09",
+		level: "fault_enumeration",
+		scens: vec![Scen {
+			name: "cli_faults",
+			f: || Box::pin(cli::faults::scenario()),
+			weight: 1,
+			sweep: Some(Sweep { param: "fault_at", count_probe: "seam_events", kinds: cli::faults::SWEEP_KINDS, quick_bases: 12, thorough_bases: 1500 }),
+			max_steps: 50_000,
+		}],
+		quick_runs: 6_000,
+		thorough_runs: 1_000_000,
+		rule: "one planned fault per run: send error / receive error / peer close / one of 26 poison messages, fired at a drawn seam-event position (search) or at every seam-event position of a fault-free base run x 9 fault kinds (sweep); 1-4 front-end tasks x 1-2 ops + late ops + optional open subscription stream; non-trivial = the client noticed the fault while at least one operation was outstanding; distinct = schedule fingerprint + fault kind",
+		lib_panic_is_violation: true,
+		stuck_is_violation: true,
+		assumptions: vec!["a poll of a task is atomic", "the build has overflow-checks on, as a user's debug build has", "one fault per run"],
+		real: CLI_REAL,
+		stub: CLI_STUB,
+	},
+	Check {
+		prop: "C12",
+		level: "exploration",
+		scens: vec![
+			Scen { name: "cli_batch_ws", f: || Box::pin(cli::batch::scenario_ws()), weight: 2, sweep: None, max_steps: 50_000 },
+			Scen { name: "cli_batch_http", f: || Box::pin(cli::batch::scenario_http()), weight: 1, sweep: None, max_steps: 50_000 },
+		],
+		quick_runs: 9_000,
+		thorough_runs: 1_500_000,
+		rule: "1-3 concurrent batches of 1-6 entries (+0-2 single calls), both id kinds, both clients; each batch reply is a drawn permutation / subset / duplication / foreign id / mixture of two batches; non-trivial = a batch completed Ok with an entry at position > 0 filled from a reply element attributable to exactly that id; distinct = schedule fingerprint",
+		lib_panic_is_violation: false,
+		stuck_is_violation: false,
+		assumptions: vec!["a poll of a task is atomic", "HTTP: the hyper connection pool is replaced by a tower layer that answers directly (HttpClientBuilder::set_http_middleware)"],
+		real: "jsonrpsee-core async client; jsonrpsee-http-client (HttpClient, RpcService, HttpTransportClient above its tower backend); jsonrpsee-types",
 		stub: CLI_STUB,
 	}]
 }
